@@ -38,7 +38,7 @@ SOURCES = [
 
 def plan(tier):
     if tier == "thorough":
-        return {"shards": 16, "cases": 60000, "shard_timeout_s": 3000, "shard_budget_s": 1500}
+        return {"shards": 16, "cases": 300000, "shard_timeout_s": 3000, "shard_budget_s": 1500}
     return {"shards": 16, "cases": 12000, "shard_timeout_s": 600, "shard_budget_s": 100}
 
 
